@@ -24,10 +24,12 @@ def showUri (u : Uri) : String :=
 def showOutcome : Outcome → String
   | .sent s => s!"sent {s.method} {if s.version == .h2 then "2" else "11"} {showUri s.target} {showHeaders (canon s.headers)}"
   | .errInvalidMethod => "err-invalid-method"
+  | .errProtocol => "err-protocol"
   | .panic _ => "panic"
 
 def parseOutcome : List String → Option Outcome
   | ["err-invalid-method"] => some .errInvalidMethod
+  | ["err-protocol"] => some .errProtocol
   | ["panic"] => some (.panic "")
   | "sent" :: m :: v :: sc :: h :: p :: path :: q :: hs =>
     some (.sent { method := m, version := if v == "2" then .h2 else .h1,
@@ -50,7 +52,7 @@ def driverLine (inp obs : List String) : Bool × Bool × String × String :=
                      uri := { scheme := optS sc, host := optS h, port := optN p, path := if path == "-" then "" else path, query := optS q },
                      version := parseVer v, headers := parseHeaders hs }
     let conn := if c == "2" then Conn.h2 else Conn.h1
-    let mo := send true conn r
+    let mo := send conn r
     match parseOutcome obs with
     | some o => (eqOutcome mo o, (verdict conn r o).isNone, (verdict conn r o).getD "-", showOutcome mo)
     | none => (false, false, "C13/unparsable-observation", showOutcome mo)
